@@ -1,5 +1,7 @@
 import RichModel.Model.Console
 import RichModel.Model.ConsolePrint
+import RichModel.Model.ConsoleLog
+import RichModel.Drv.C01
 import RichModel.Gen.CellWidths
 import RichModel.Drv.Proto
 /-
@@ -24,6 +26,11 @@ Request:  c15_derive <TAB> flags8 <TAB> width <TAB> nullId <TAB> kind <TAB> args
   kind = out   : strs(strlist) sep end style(-|id)
   kind = rule  : characters styleId
 Answer: the appended segments (as `seg|seg|…`), `err:<PyErr>`, or `unmodelled`.
+
+Request:  c15_log <TAB> flags <TAB> width <TAB> time <TAB> strs <TAB> sep <TAB> end <TAB> path        (Model/ConsoleLog.lean)
+  flags : the variant flags of the composition layer, in the format of Drv/C01.lean (`props.c01.FLAGS`)
+  time  : "-" (show_time off) or "=<str>" (text of the time cell);  path : "-" or "=<str>" (`file:line`)
+Answer: `ok:<text of the appended segments>` or `unmodelled`.
 -/
 namespace RichModel.Drv.C15
 open RichModel RichModel.Proto RichModel.Console
@@ -157,7 +164,22 @@ def encDerived (r : Except PyErr (Option (List Seg))) : String :=
   | .ok none => "unmodelled"
   | .error e => "err:" ++ toString (repr e)
 
+def decOptStr (s : String) : Option (List Char) :=
+  if s == "-" then none else some (decStr (s.drop 1).toString)
+
 def handlers : List (String × (List String → String)) := [
+  ("c15_log", fun a => match a with
+    | [flags, w, time, strs, sep, e, path] =>
+      (do
+        let f ← C01.decFlags flags
+        let env : Frames.Env := { consoleWidth := decNat w }
+        let run (poison : List Layout.Seg) : List Char :=
+          ConsoleLog.logChars (C01.mkCfg f env poison (C01.decFrameBits flags)) (decOptStr time) (decStrList strs)
+            (decStr sep) (decStr e) (decOptStr path)
+        let a := run C01.poisonA
+        let b := run C01.poisonB
+        if a != b then none else pure ("ok:" ++ encStr a)).getD "unmodelled"
+    | _ => "bad-args"),
   ("c15_derive", fun a => match a with
     | [flags, w, nullId, "print", strs, sep, e, style, ov, nw, width, crop, soft, csoft] =>
       (do
